@@ -56,6 +56,7 @@ pub fn replay_table() -> Vec<(&'static str, fn())> {
     v.extend_from_slice(c01::REPLAY);
     v.extend_from_slice(c01::transport::REPLAY);
     v.extend_from_slice(c01::packet::REPLAY);
+    v.extend_from_slice(c01::readers::REPLAY);
     v.extend_from_slice(c02::REPLAY);
     v.extend_from_slice(c03::REPLAY);
     v.extend_from_slice(c03::glue::REPLAY);
